@@ -40,13 +40,13 @@ Act(doc, i) ==
     IN  [flush |-> blk, lvl |-> blk \/ k \in AnchorKinds, anchor |-> k \in AnchorKinds, node |-> i]
 
 HasWordBelow(doc, i) == \E j \in (i+1)..SubtreeEnd(doc, i) : HasWords(doc[j].k) \/ doc[j].k = "LNK"
-\* isElementWithoutContent (div, section, header, h1..h6): no text below, and either no element
+\* isElementWithoutContent (div, section, header, h1..h6, and since 18a8bea p and the other block-level tags): no text below, and either no element
 \* child at all or as many element children as there are br elements anywhere below (the code
 \* compares the number of CHILD elements with the number of DESCENDANT br/hr elements)
 ElemChildren(doc, i) == {j \in Children(doc, i) : doc[j].k \notin TextKinds \cup {"CMT"}}
 BrBelow(doc, i)      == {j \in (i+1)..SubtreeEnd(doc, i) : doc[j].k = "BR"}
 WithoutContent(doc, i) ==
-    /\ doc[i].k \in {"DIV", "H", "MRK"}
+    /\ doc[i].k \in {"DIV", "H", "MRK", "P"}
     /\ ~HasWordBelow(doc, i)
     /\ (ElemChildren(doc, i) = {} \/ Cardinality(ElemChildren(doc, i)) = Cardinality(BrBelow(doc, i)))
 
@@ -201,10 +201,10 @@ Ident(doc) == [i \in 1..Len(doc) |-> i]
 \* and the theorem holds without this exclusion (Inv_C20_SkipEqualsDeleteUnrestricted).
 RECURSIVE EmptyWithoutMarks(_, _)
 EmptyWithoutMarks(doc, p) ==
-    /\ doc[p].k \in {"DIV", "H", "MRK"}
+    /\ doc[p].k \in {"DIV", "H", "MRK", "P"}
     /\ \A j \in Children(doc, p) : doc[j].k \in {"MRK", "BR", "W", "CMT"} \/ EmptyWithoutMarks(doc, j)
 WrapperBecomesEmpty(doc) ==
-    \E p \in 1..Len(doc) : doc[p].k \in {"DIV", "H"} /\ ~UnderKind(doc, p, {"MRK"})
+    \E p \in 1..Len(doc) : doc[p].k \in {"DIV", "H", "P"} /\ ~UnderKind(doc, p, {"MRK"})
                             /\ ~WithoutContent(doc, p) /\ EmptyWithoutMarks(doc, p)
 SkipEqualsDelete(doc)   == Shape(Run(doc, TRUE).elems, Ident(doc)) = Shape(Run(Delete(doc), TRUE).elems, KeepIdx(doc))
 NoSkipEqualsNeutral(doc) == Shape(Run(doc, FALSE).elems, Ident(doc)) = Shape(Run(Neutral(doc), TRUE).elems, Ident(doc))
